@@ -377,8 +377,47 @@ fn c18_mants(shift: u32, thorough: bool) -> Vec<u64> {
             }
         }
     }
+    // round 9: one dropped bit at every position - alone, on top of the halfway bit, taken off the halfway point and off
+    // the all-ones pattern (a sticky test that only looks at part of the dropped bits is wrong for exactly one of them).
+    // Applied to a reduced set of kept patterns (`dropped_wide`) to bound the cost.
+    let mut dropped_wide: Vec<u128> = Vec::new();
+    if shift > 1 {
+        for i in 0..(shift - 1) {
+            let b = 1u128 << i;
+            dropped_wide.push(b);
+            dropped_wide.push(half | b);
+            dropped_wide.push(half - b);
+            dropped_wide.push(dmax - b);
+            if i > 0 {
+                dropped_wide.push(half | b | 1);
+                dropped_wide.push(b << 1 | b);
+            }
+        }
+    }
+    dropped_wide.retain(|d| !dropped.contains(d));
     dropped.sort();
     dropped.dedup();
+    dropped_wide.sort();
+    dropped_wide.dedup();
+    if kept_bits > 0 {
+        let max = if kept_bits == 64 { u64::MAX } else { (1u64 << kept_bits) - 1 };
+        let top = 1u64 << (kept_bits - 1);
+        for v in [0u64, 1, 2, 3, max, max - 1, 0x5555_5555_5555_5555, 0xABCD_EF01_2345_6789] {
+            let k = (v & max) | top;
+            for &d in &dropped_wide {
+                let m: u128 = if shift >= 64 { d } else { ((k as u128) << shift) | d };
+                if (m as u64) >> 63 == 1 {
+                    out.push(m as u64);
+                }
+            }
+        }
+    } else {
+        for &d in &dropped_wide {
+            if (d as u64) >> 63 == 1 {
+                out.push(d as u64);
+            }
+        }
+    }
     for &k in &kept {
         for &d in &dropped {
             let m: u128 = if shift >= 64 { d } else { ((k as u128) << shift) | d };
@@ -537,6 +576,24 @@ pub fn c17(a: &Args) -> (Stats, String) {
         fr.push((1u64 << k) - 1);
         fr.push(((1u64 << 52) - 1) ^ ((1u64 << k) - 1));
     }
+    // round 9: every pair of fraction bits, and fractions whose high 20 bits and low 32 bits are related (equal, complementary,
+    // shifted copies) - value-dependent shortcuts that work on the two 32-bit halves of the pattern confuse exactly those
+    for i in 0..52 {
+        for k in 0..i {
+            fr.push((1u64 << i) | (1u64 << k));
+        }
+    }
+    let mut vs: Vec<u64> = vec![1, 2, 3, 0xFFFFF, 0x55555, 0xAAAAA, 0xABCDE, 0x80001];
+    for k in 0..20 {
+        vs.push(1u64 << k);
+        vs.push((1u64 << k) - 1);
+    }
+    for &v in &vs {
+        let v = v & 0xFFFFF;
+        for lo in [v, !v & 0xFFFF_FFFF, v << 12, v << 6, (v << 12) | v, v ^ 1, v.wrapping_add(1) & 0xFFFF_FFFF, 0x1_0000_0000 - v.max(1)] {
+            fr.push((v << 32) | (lo & 0xFFFF_FFFF));
+        }
+    }
     if a.thorough {
         let mut s = a.seed ^ 0xC17;
         for _ in 0..4096 {
@@ -566,8 +623,9 @@ pub fn c17(a: &Args) -> (Stats, String) {
                         one(st, (sign << 63) | ((j as u64) << 52) | f);
                     }
                 }
-                if thorough17 {
-                    // complete sweeps of the low 16 and of the high 16 fraction bits in every exponent field
+                if thorough17 || j % 8 == 7 || j < 3 || j > 2044 {
+                    // complete sweeps of the low 16 and of the high 16 fraction bits (thorough: in every exponent field;
+                    // quick: in every 8th field and the three at either end)
                     for sign in 0..2u64 {
                         for w in 0..(1u64 << 16) {
                             one(st, (sign << 63) | ((j as u64) << 52) | w);
